@@ -37,10 +37,22 @@ def units(tier, seed):
     return [('hist', cid, n, ln, seed) for (cid, k, w, d) in AR.configs() if AR.is_persistent(cid)]
 
 
-def _values(dom):
+def _main_class_value():
+    """an instance of a class that exists only in the writer's __main__ (dill stores such classes by value)"""
+    m = sys.modules['__main__']
+    if not hasattr(m, 'C04Local'):
+        exec("class C04Local(object):\n    def __init__(self, v):\n        self.v = v\n    def __eq__(self, o):\n"
+             "        return type(o).__name__ == 'C04Local' and o.v == self.v\n    def __hash__(self):\n        return hash(self.v)\n"
+             "    def __repr__(self):\n        return 'C04Local(%r)' % (self.v,)\n", m.__dict__)
+    return m.C04Local(7)
+
+
+def _values(dom, cid=None):
     base = list(AR.VALUES[dom])
     if dom in ('fs', 'any', 'source'):
         base += [float('inf'), b'\x00\xff', (1, (2, [3]))]
+    if cid in ('file-pickle', 'dir-pickle'):
+        base.append(_main_class_value())
     return base
 
 
@@ -75,7 +87,7 @@ def run_unit(unit):
     if '' not in sys.path:
         sys.path.insert(0, '')
     dom = AR.kd(cid)
-    keys, values = AR.KEYS[dom], _values(dom)
+    keys, values = AR.KEYS[dom], _values(dom, cid)
     if cid.startswith('dir'):
         # one key of each pair that a dir archive maps to one entry name (C03's listed finding): aliasing is not this property
         keys = [k for k in keys if k not in ('a_b', '1')]
@@ -98,7 +110,7 @@ def run_unit(unit):
                         k = keys[fixed[step][1] % len(keys)]
                         r = {'set': 0.1, 'pop': 0.6, 'update': 0.8, 'clear': 0.87, 'mut': 0.95}[fixed[step][0]]
                     if r < 0.55:
-                        v = rnd.choice(values)
+                        v = values[-1] if (fixed and h == 5) else rnd.choice(values)
                         a[k] = v
                         model[k] = v
                         hist.append(('set', repr(k), repr(v)))
